@@ -49,8 +49,9 @@ class Recorder(object):
 
 
 def observe(enc, sid, secret, key):
-    old = enc.sha1
-    enc.sha1 = Recorder
+    old = getattr(enc, 'sha1', None)        # the update() log is diagnostic: only taken if the module binds `sha1`
+    if old is not None:
+        enc.sha1 = Recorder
     try:
         Recorder.log = []
         try:
@@ -59,9 +60,75 @@ def observe(enc, sid, secret, key):
             res = 'raised %r' % (e,)
         updates = list(Recorder.log or [])
     finally:
-        enc.sha1 = old
+        if old is not None:
+            enc.sha1 = old
     return {'sid': [ord(c) for c in sid], 'secret': list(secret), 'key': list(key),
             'updates': [list(u) for u in updates], 'result': [ord(c) for c in str(res)]}, res
+
+
+def observe_login(enc, sid, key_form, seed):
+    """The string the library hands to AuthenticationToken.join when a server asks for encryption: LoginReactor.react on
+    a real Connection (in-memory socket), the key in one of the encodings the client accepts, the secret recovered from
+    the wire with the private key."""
+    from minecraft.networking.connection import Connection, LoginReactor
+    from minecraft.networking.packets import clientbound
+    from .. import peer as P
+    from . import c10
+    priv, der = c10.key_encoding(1024, key_form)
+    joined = []
+
+    class Tok(object):
+        authenticated = True
+        username = 'u'
+        profile = type('P', (), {'name': 'u', 'id_': '0' * 32})()
+
+        def join(self, server_hash):
+            joined.append(server_hash)
+            return True
+
+    class Wire(object):
+        def __init__(self):
+            self.out = b''
+
+        def send(self, b):
+            self.out += bytes(b)
+            return len(b)
+
+        def recv(self, n):
+            return b''
+        read = recv
+
+        def close(self):
+            pass
+    w = Wire()
+    conn = Connection('h', 25565, auth_token=Tok(), allowed_versions={757})
+    conn.socket, conn.file_object = w, w
+    pkt = clientbound.login.EncryptionRequestPacket(context=conn.context)
+    pkt.server_id, pkt.public_key, pkt.verify_token = sid, der, b'tokn'
+    old = getattr(enc, 'sha1', None)
+    if old is not None:
+        enc.sha1 = Recorder
+    Recorder.log = []
+    try:
+        try:
+            LoginReactor(conn).react(pkt)
+            res = joined[0] if joined else 'join not called'
+        except Exception as e:      # noqa
+            res = 'raised %r' % (e,)
+        updates = list(Recorder.log or [])
+    finally:
+        if old is not None:
+            enc.sha1 = old
+    secret = b''
+    try:
+        rd = P.Reader(w.out)
+        rd.varint()
+        rd.varint()
+        secret = c10.rsa_decrypt(priv, rd.barr())
+    except Exception:       # noqa
+        pass
+    return {'sid': [ord(c) for c in sid], 'secret': list(secret), 'key': list(der),
+            'updates': [list(u) for u in updates], 'result': [ord(c) for c in str(res)], 'via': 'login:' + key_form}, res
 
 
 def run(chk):
@@ -111,9 +178,16 @@ def run(chk):
         o, res = observe(enc, sid, secret, key)
         chk.case(('rand', j))
         obs.append(o)
+    # the same through the login reactor: what reaches AuthenticationToken.join, for every key encoding the client accepts
+    for j in range(9 if quick else 60):
+        sid = ['', 'abc123', 'caf\u00e9-\u30b5\u30fc\u30d0\u30fc'][j % 3] if j < 9 else ''.join(
+            chr(rng.choice([rng.randint(33, 126), rng.randint(0xA0, 0x7FF), rng.randint(0x800, 0xD7FF)])) for _ in range(rng.randint(0, 12)))
+        o, res = observe_login(enc, sid, ('spki', 'pkcs1', 'nonull')[(j // 3) % 3], chk.seed * 13 + j)
+        chk.case(('login', j))
+        obs.append(o)
     tf = os.path.join(chk.work, 'hash_obs.json')
     with open(tf, 'w') as f:
-        json.dump(obs, f)
+        json.dump([{k: v for k, v in o.items() if k != 'via'} for o in obs], f)
     r = chk.tlc('MC_HashCases', 'HashCases.cfg', env={'TRACE_FILE': tf}, must_pass=False)
     if r.violated:
         m = re.search(r'c = \[k \|-> "hash", i \|-> (\d+)\]', r.out) or re.search(r'i \|-> (\d+)', r.out)
@@ -123,7 +197,9 @@ def run(chk):
             sid = ''.join(map(chr, bad['sid']))
             upd = [bytes(u) for u in bad['updates']]
             want_upd = [sid.encode('utf-8'), bytes(bad['secret']), bytes(bad['key'])]
-            key = 'hash:update-order' if upd != want_upd else 'hash:result'
+            key = 'hash:update-order' if (upd and b''.join(upd) != b''.join(want_upd)) else 'hash:result'
+            if bad.get('via'):
+                key += ':' + bad['via']
             what += ': id %r, result %r, updates %s' % (sid, ''.join(map(chr, bad['result'])),
                                                         'as specified' if upd == want_upd else [u[:8].hex() for u in upd])
         else:
@@ -157,7 +233,7 @@ def run(chk):
     chk.extra['hash_observations'] = len(obs)
     chk.extra['formatter_rows'] = len(rows)
     chk.assumptions += ['TLC arithmetic; hashlib is checked, not trusted: every observation\'s digest is recomputed by the TLA+ SHA-1',
-                        'use of the hash in the session join request is covered by C10']
+                        'the login-reactor observations use an in-memory socket; the full login (frames, ordering) is C10']
     return chk.finish(
         rule='formatter: every digest of 1 and 2 bytes and 16 structured 20-byte digests (rows from TLC); whole function: the three '
              'published vectors, searched digests with set top bit / leading zero nibble / byte, seeded random (id, secret, key) incl. '
